@@ -171,7 +171,7 @@ def run(prop, tier):
         recs.append(rec)
 
     open_k = vlib.open_findings("C02")
-    shared_devs = {k["deviation"] for k in vlib.open_findings("C01") if k.get("deviation") == "fractionalLiteralTruncated"}
+    shared_devs = {k["deviation"] for k in vlib.open_findings("C01") if k.get("deviation") in ("fractionalLiteralTruncated", "tplNumberPlainDecimalOnly")}
     open_devs = {k["deviation"] for k in open_k if k.get("deviation")} | shared_devs
     judged, consumed, tstates = judge(recs, tag, open_devs)
     neg = negative_control(recs, tag, open_devs)
